@@ -77,6 +77,11 @@ CHECKS["C13"] = ("exploration",
    "All 9-bit modes, users/groups by name and number, five umasks, creations and rewrites of the three file kinds.",
    "Runs as root (chown observable); only users/groups present in the image.",
    "DESIGN.md 4 C13")
+CHECKS["C10"] = ("exploration",
+   "model-based property testing (proptest): generated hook/group/env configurations run through the real daemon; the hook recorder's trace of the first two attempts must equal the trace predicted by an independent hook-trace model",
+   "Hook lists with nested groups, multi-typed hooks, allow_failure and exit behaviours of every kind, stdin/stdout/stderr templates and five levels of environment tables; order, selection by type, variables, environment precedence, stdin, output files, create/edit bracketing, non-overlap and failure propagation are compared invocation by invocation.",
+   "Attempts are delimited by a recorder post-operation hook placed first in the certificate's list; whether [global].env reaches account hooks is not judged.",
+   "DESIGN.md 4 C10, appendix C")
 PENDING = {}
 
 props = [json.loads(l) for l in open("/verif/properties.jsonl")]
